@@ -283,6 +283,10 @@ def gen_tree(rng, depth, maxdepth, bad=False):
             return ('leaf', ctype, b'base64', None)          # raw None: undecodable base64
         return ('leaf', ctype, enc, raw)
     b = b'bnd%d%s' % (depth, rng.choice([b'', b'x', b'_=', b'-']))
+    if rng.randrange(5) == 0:
+        # boundaries of the greatest length RFC 2046 allows (70), one less, and longer than that (a reader takes what it gets)
+        b += rng.choice([b'p', b'-', b'Z9']) * 100
+        b = b[:rng.choice([69, 70, 70, 71, 100])]
     n = rng.choice([1, 2, 2, 3, 5, 20 if depth == 0 else 2])
     kids = [gen_tree(rng, depth + 1, maxdepth, bad) for _ in range(n)]
     return ('multi', rng.choice([b'mixed', b'alternative', b'related']), b, kids,
